@@ -43,6 +43,8 @@ class Ctx:
 def C(): return Ctx.cur
 
 def lift(v):
+    if isinstance(v, np.floating): v = float(v)
+    if isinstance(v, np.integer): v = int(v)
     if isinstance(v, bool): return z3.BoolVal(v)
     if isinstance(v, int): return z3.IntVal(v)
     if isinstance(v, float):
